@@ -42,7 +42,7 @@ Definition induced (hooks : list (list binding)) (o : op) : list smop :=
   | ORemove c i => [Remove c i]
   | OEnable h => map (fun b => Add (b_crontab b) (b_id b)) (nth (N.to_nat h) hooks [])
   | ODisable h => map (fun b => Remove (b_crontab b) (b_id b)) (nth (N.to_nat h) hooks [])
-  | OFire _ | OTick _ | OTickAll | OStart _ | ODrain | OStop => []
+  | OFire _ | OTick _ | OTickAll | OStart _ | ODrain | OStop | OSmStart => []
   end.
 
 (* ---- what a firing must produce ---- *)
